@@ -4,6 +4,7 @@ package timing
 
 import (
 	"io"
+	"sync"
 
 	"github.com/sarchlab/akita/v5/internal/verifrt"
 )
@@ -90,5 +91,67 @@ func VerifC41_KindMismatch() {
 	var w c41Buf
 	verifrt.Assert(p.SaveCheckpoint(&w) != nil, "parallel-generator-not-checkpointable")
 	verifrt.Assert(p.LoadCheckpoint(&w) != nil, "parallel-generator-not-restorable")
+	verifrt.Cover("end")
+}
+
+// VerifC41_Concurrent: several goroutines obtain the generator through the
+// global accessor (racing on its lazy creation) and draw IDs concurrently; every
+// interleaving within the preemption bound is a path. All IDs are nonzero and
+// pairwise distinct, and together they are exactly counter+1 … counter+total.
+func VerifC41_Concurrent() {
+	ResetIDGenerator()
+	par := verifrt.Choice("parallel", 2) == 1
+	if par {
+		UseParallelIDGenerator()
+	}
+	preset := verifrt.Choice("counter-preset", 2) == 1
+	var c uint64
+	if preset {
+		c = verifrt.Uint64Range("counter", 0, ^uint64(0)-16)
+		if par {
+			GetIDGenerator().(*parallelIDGenerator).nextID = c
+		} else {
+			GetIDGenerator()
+			SetIDGeneratorNextID(c)
+		}
+	}
+	nG := verifrt.Bound("goroutines", 2, 3)
+	per := 2
+	var mu sync.Mutex
+	var wg sync.WaitGroup
+	var ids []uint64
+	var gens []IDGenerator
+	for t := 0; t < nG; t++ {
+		wg.Add(1)
+		go func() {
+			g := GetIDGenerator() // when not preset: races on the lazy creation
+			for i := 0; i < per; i++ {
+				id := g.Generate()
+				mu.Lock()
+				ids = append(ids, id)
+				mu.Unlock()
+			}
+			mu.Lock()
+			gens = append(gens, g)
+			mu.Unlock()
+			wg.Done()
+		}()
+	}
+	wg.Wait()
+	total := nG * per
+	verifrt.Assert(len(ids) == total, "every-call-returned")
+	for _, g := range gens {
+		verifrt.Assert(g == gens[0], "one-generator-per-simulation")
+	}
+	var sum uint64
+	for i, id := range ids {
+		verifrt.Assert(id != 0, "id-nonzero")
+		verifrt.Assert(id-c >= 1 && id-c <= uint64(total), "ids-are-the-next-values-of-the-counter")
+		for _, o := range ids[:i] {
+			verifrt.Assert(o != id, "ids-pairwise-distinct")
+		}
+		sum += id - c
+	}
+	verifrt.Assert(sum == uint64(total*(total+1)/2), "ids-are-exactly-the-next-total-values")
 	verifrt.Cover("end")
 }
